@@ -17,6 +17,18 @@ pub const EDGES: [u32; 7] = [0, 1, 999, 1000, 999_999_000, 999_999_999, 500_000_
 pub const Y9999: u64 = 253_402_300_799;
 
 fn pick_secs(rng: &mut Rng) -> u64 {
+    let s = pick_secs_raw(rng);
+    // one start in four sits just before a minute / hour / day rollover (a run lasts seconds,
+    // so the rollover happens while requests are in flight)
+    match rng.below(12) {
+        0 => (s - s % 60 + 59).min(Y9999),
+        1 => (s - s % 3600 + 3598).min(Y9999),
+        2 => (s - s % 86_400 + 86_399).min(Y9999),
+        _ => s,
+    }
+}
+
+fn pick_secs_raw(rng: &mut Rng) -> u64 {
     match rng.below(8) {
         0 => rng.below(10),                     // around the epoch
         1 => 2_147_483_640 + rng.below(16),     // around 2^31
